@@ -28,10 +28,12 @@ struct Tally {
     back_to_first_layout: u64,
     fixed_to_other_fixed: u64,
     single_flip: [u64; 11],
+    linked_user_file: u64,
 }
 fn flush(t: &Tally, out: &mut Out) {
     out.count("evaluations", t.calls);
     out.count("triples_compared", t.triples);
+    out.count("triples_whose_user_file_is_a_symbolic_link", t.linked_user_file);
     out.count("triples.layout_changed", t.layout_changed);
     out.count("triples.method_changed", t.method_changed);
     out.count("triples.same_layout_option_flips", t.option_flips_only);
@@ -238,6 +240,14 @@ fn gen_case(rng: &mut Rng, probe: &dyn Fn(Lay) -> Vec<String>) -> Case {
 
 fn write_ac(root: &Path, content: &str, mtime: SystemTime) {
     let p = autocorrect_file(root);
+    // a user who keeps the list elsewhere (a synchronised folder) and links it: the target is edited in place; the time
+    // stamp that matters is the target's
+    if std::fs::symlink_metadata(&p).map(|m| m.file_type().is_symlink()).unwrap_or(false) {
+        std::fs::write(&p, content).unwrap();
+        let f = std::fs::File::options().write(true).open(&p).unwrap();
+        f.set_modified(mtime).unwrap();
+        return;
+    }
     // editors differ: rewrite in place, write aside and rename over, or remove and create (chosen by the content's length)
     match content.len() % 3 {
         0 => std::fs::write(&p, content).unwrap(),
@@ -288,6 +298,16 @@ fn run_case(c: &Case, root: &Path, out: &mut Out, t: &mut Tally) {
     fresh_root(root);
     std::fs::write(selection_file(root), STORE).unwrap();
     let mut mtime = SystemTime::now() - Duration::from_secs(3600);
+    // in a sixth of the cases (by the shape of the case) the user's file is a symbolic link to a file in another directory
+    if (c.before.len() + c.after.len() * 3 + c.via.len()) % 6 == 0 {
+        let target = root.join("elsewhere-autocorrect.json");
+        std::fs::write(&target, "{}").unwrap();
+        if let Ok(f) = std::fs::File::options().write(true).open(&target) {
+            let _ = f.set_modified(mtime - Duration::from_secs(60));
+        }
+        let _ = std::os::unix::fs::symlink(&target, autocorrect_file(root));
+        t.linked_user_file += 1;
+    }
     if let Some(i) = c.initial_ac {
         write_ac(root, ACS[i], mtime);
     }
